@@ -184,6 +184,11 @@ impl SecondaryStorage {
         self.version.verif_pinned_rowsets()
     }
 
+    /// (verification hook) the row-sets of the latest snapshot (independent of the pin counts).
+    pub fn verif_latest_rowsets(&self) -> Vec<(u32, u32)> {
+        self.version.verif_latest_rowsets()
+    }
+
     /// (verification hook) root directory of the store.
     pub fn verif_path(&self) -> std::path::PathBuf {
         self.options.path.clone()
